@@ -32,6 +32,10 @@ def run(ctx):
     from . import c03 as _c03
     from .common import AssocModel as _AM
     ctx.shared(_c03.keys, ctx, _AM(ctx.repo))   # identifying attributes are addressed by the association's spelling in the index keys
+    from . import c02 as _c02
+    ctx.shared(_c02.ref_rule, ctx, _AM(ctx.repo))   # referential attributes have ONE value: the stored copies are stripped, reads go through the link
+    from . import c09 as _c09
+    ctx.shared(_c09.where_filter, ctx)          # equality filters read attributes the way every other reader does (getattr)
     ctx.assume('attribute values live in instance.__dict__ under the declared spelling (MetaClass.new sets '
                'every declared attribute), so a second cell can only appear through the three dunder methods')
     return ('Abstract execution of Class.__getattr__/__setattr__/__delattr__ over every combination of '
